@@ -1,6 +1,184 @@
-//! C11 (stub)
+//! C11 — totality: panics, overflow traps and assertion failures only where documented.
+//!
+//! Thin version: (1) every case of every other property is re-run in "panic only" mode (value
+//! mismatches are ignored, a panic inside `call` in the documented domain is a failure, and the
+//! `must_panic!` expectations for the documented panics stay active); the crate is built with
+//! debug assertions and overflow checks, so arithmetic traps surface as panics. (2) A few cases
+//! that throw hostile arguments at the option/result-returning APIs, which must not panic
+//! whatever their arguments.
+//!
+//! Not covered: the optimised profile without debug assertions (one profile only), non-termination
+//! (no watchdog).
+
 use super::prelude::*;
+use crypto_bigint::{U64, U128, U192, U256};
+use der::Decode;
+
+/// Garbage byte strings: empty, short, long, all-zero, all-ones, DER/RLP-looking prefixes.
+fn garbage(c: &mut Ctx, max_len: usize) -> Vec<u8> {
+    let len = c.below(max_len + 1);
+    let mut v: Vec<u8> = (0..len).map(|_| c.word() as u8).collect();
+    match c.below(8) {
+        0 => v.iter_mut().for_each(|b| *b = 0),
+        1 => v.iter_mut().for_each(|b| *b = 0xff),
+        2 if len >= 2 => {
+            v[0] = 0x02;
+            v[1] = (len - 2) as u8;
+        }
+        3 if len >= 2 => {
+            v[0] = 0x02;
+            v[1] = c.word() as u8;
+        }
+        4 if len >= 1 => v[0] = 0x80 + (len as u8 - 1).min(55),
+        5 if len >= 3 => {
+            v[0] = 0x02;
+            v[1] = 0x81;
+            v[2] = (len - 3) as u8;
+        }
+        _ => {}
+    }
+    v
+}
+
+fn hostile_uint<const L: usize>(c: &mut Ctx) {
+    let bits = 64 * L as u32;
+    let shifts = [0u32, 1, 63, 64, 65, bits - 1, bits, bits + 1, 2 * bits, u32::MAX - 1, u32::MAX, 1 << 31];
+    for (a, b) in c.scaled(4, |c| c.inputs2(L, L)) {
+        if c.done() {
+            return;
+        }
+        let (x, y) = (bu::<L>(&a), bu::<L>(&b));
+        no_panic!(c, call(|| opt(x.checked_add(&y)).is_some()); a, b);
+        no_panic!(c, call(|| opt(x.checked_sub(&y)).is_some()); a, b);
+        no_panic!(c, call(|| opt(x.checked_mul(&y)).is_some()); a, b);
+        no_panic!(c, call(|| opt(x.checked_div(&y)).is_some()); a, b);
+        no_panic!(c, call(|| opt(x.checked_rem(&y)).is_some()); a, b);
+        no_panic!(c, call(|| x.saturating_add(&y)); a, b);
+        no_panic!(c, call(|| x.saturating_sub(&y)); a, b);
+        no_panic!(c, call(|| x.saturating_mul(&y)); a, b);
+        no_panic!(c, call(|| x.wrapping_add(&y)); a, b);
+        no_panic!(c, call(|| x.wrapping_sub(&y)); a, b);
+        no_panic!(c, call(|| x.wrapping_mul(&y)); a, b);
+        // inversion with an arbitrary (zero, even, odd) modulus and arbitrary value
+        no_panic!(c, call(|| opt(x.inv_mod(&y)).is_some()); a, b);
+        no_panic!(c, call(|| opt(x.checked_sqrt()).is_some()); a);
+        let s = shifts[c.below(shifts.len())];
+        no_panic!(c, call(|| copt(x.overflowing_shl(s)).is_some()); a, s);
+        no_panic!(c, call(|| copt(x.overflowing_shr(s)).is_some()); a, s);
+        no_panic!(c, call(|| copt(x.overflowing_shl_vartime(s)).is_some()); a, s);
+        no_panic!(c, call(|| copt(x.overflowing_shr_vartime(s)).is_some()); a, s);
+        no_panic!(c, call(|| copt(Uint::<L>::overflowing_shl_vartime_wide((x, y), s)).is_some()); a, b, s);
+        no_panic!(c, call(|| copt(Uint::<L>::overflowing_shr_vartime_wide((x, y), s)).is_some()); a, b, s);
+        no_panic!(c, call(|| x.wrapping_shl(s)); a, s);
+        no_panic!(c, call(|| x.wrapping_shr(s)); a, s);
+        no_panic!(c, call(|| x.wrapping_shl_vartime(s)); a, s);
+        no_panic!(c, call(|| x.wrapping_shr_vartime(s)); a, s);
+        no_panic!(c, call(|| x.rem2k_vartime(s)); a, s);
+        no_panic!(c, call(|| NonZero::new(x).is_some()); a);
+        no_panic!(c, call(|| Odd::new(x).is_some()); a);
+    }
+}
+
+fn hostile_boxed(c: &mut Ctx) {
+    let shifts = [0u32, 1, 63, 64, 65, 127, 128, 129, 255, 256, 257, 512, u32::MAX - 1, u32::MAX, 1 << 31];
+    for l in 1..=4usize {
+        for (a, b) in c.scaled(16, |c| c.inputs2(l, l)) {
+            if c.done() {
+                return;
+            }
+            let (x, y) = (bx(&a, l), bx(&b, l));
+            no_panic!(c, call(|| opt(x.checked_div(&y)).is_some()); a, b, l);
+            no_panic!(c, call(|| opt(x.inv_mod(&y)).is_some()); a, b, l);
+            no_panic!(c, call(|| opt(x.checked_sqrt()).is_some()); a, l);
+            let s = shifts[c.below(shifts.len())];
+            no_panic!(c, call(|| x.overflowing_shl(s).1); a, l, s);
+            no_panic!(c, call(|| x.overflowing_shr(s).1); a, l, s);
+            no_panic!(c, call(|| x.shl_vartime(s).is_some()); a, l, s);
+            no_panic!(c, call(|| x.shr_vartime(s).is_some()); a, l, s);
+            no_panic!(c, call(|| x.wrapping_shl(s)); a, l, s);
+            no_panic!(c, call(|| x.wrapping_shr(s)); a, l, s);
+            no_panic!(c, call(|| x.wrapping_shl_vartime(s)); a, l, s);
+            no_panic!(c, call(|| x.wrapping_shr_vartime(s)); a, l, s);
+        }
+    }
+}
+
+/// Decoders fed with garbage must return, not panic.
+fn hostile_decoders(c: &mut Ctx) {
+    let n = (c.cap + c.iters) * 2;
+    for _ in 0..n {
+        if c.done() {
+            return;
+        }
+        let bytes = garbage(c, 40);
+        no_panic!(c, call(|| U64::from_der(&bytes).is_ok()); bytes);
+        no_panic!(c, call(|| U128::from_der(&bytes).is_ok()); bytes);
+        no_panic!(c, call(|| U256::from_der(&bytes).is_ok()); bytes);
+        no_panic!(c, call(|| rlp::decode::<U64>(&bytes).is_ok()); bytes);
+        no_panic!(c, call(|| rlp::decode::<U192>(&bytes).is_ok()); bytes);
+        no_panic!(c, call(|| rlp::decode::<U256>(&bytes).is_ok()); bytes);
+        let prec = [0u32, 1, 7, 8, 63, 64, 65, 128, 129, 256][c.below(10)];
+        no_panic!(c, call(|| BoxedUint::from_be_slice(&bytes, prec).is_ok()); bytes, prec);
+        no_panic!(c, call(|| BoxedUint::from_le_slice(&bytes, prec).is_ok()); bytes, prec);
+        // strings: arbitrary bytes that happen to be UTF-8, and numeral-like strings
+        let text: String = if c.coin() {
+            String::from_utf8_lossy(&bytes).into_owned()
+        } else {
+            let alphabet = b"0123456789abcdefghijklmnopqrstuvwxyzABCDEFGHIJKLMNOPQRSTUVWXYZ_+-/:@G`g ";
+            (0..c.below(70)).map(|_| alphabet[c.below(alphabet.len())] as char).collect()
+        };
+        let radix = 2 + c.below(35) as u32;
+        no_panic!(c, call(|| U64::from_str_radix_vartime(&text, radix).is_ok()); text, radix);
+        no_panic!(c, call(|| U192::from_str_radix_vartime(&text, radix).is_ok()); text, radix);
+        no_panic!(c, call(|| BoxedUint::from_str_radix_vartime(&text, radix).is_ok()); text, radix);
+        no_panic!(c, call(|| BoxedUint::from_str_radix_with_precision_vartime(&text, radix, prec).is_ok()); text, radix, prec);
+        no_panic!(c, call(|| opt(BoxedUint::from_be_hex(&text, prec)).is_some()); text, prec);
+    }
+}
+
+/// The numeral "0" (and "+0", "000", "0_0") parsed into a BoxedUint must be a usable value: the
+/// basic queries on the result must not panic.
+fn boxed_zero_numeral(c: &mut Ctx) {
+    for text in ["0", "+0", "000", "0_0", "00000000000000000000000000000000000000000000000000000000000000000000000000000000"] {
+        for radix in 2..=36u32 {
+            if c.done() {
+                return;
+            }
+            let r = call(|| BoxedUint::from_str_radix_vartime(text, radix));
+            if !no_panic!(c, r; text, radix) {
+                continue;
+            }
+            let Ok(Ok(z)) = r else { continue };
+            no_panic!(c, call(|| cb(z.is_zero())); text, radix);
+            no_panic!(c, call(|| z.bits()); text, radix);
+            no_panic!(c, call(|| z.bits_vartime()); text, radix);
+            no_panic!(c, call(|| z.bits_precision()); text, radix);
+            no_panic!(c, call(|| z.leading_zeros()); text, radix);
+            no_panic!(c, call(|| z.trailing_zeros()); text, radix);
+            no_panic!(c, call(|| z.to_string_radix_vartime(radix)); text, radix);
+            no_panic!(c, call(|| z.to_be_bytes().len()); text, radix);
+            no_panic!(c, call(|| cb(z.is_odd())); text, radix);
+            no_panic!(c, call(|| z.wrapping_add(&z).nlimbs()); text, radix);
+            no_panic!(c, call(|| z.widen(64).nlimbs()); text, radix);
+            no_panic!(c, call(|| z.sqrt_vartime().nlimbs()); text, radix);
+        }
+    }
+}
 
 pub fn cases() -> Vec<Case> {
-    Vec::new()
+    let mut v = Vec::new();
+    ucases!(v, "option/saturating/wrapping forms with arbitrary arguments", hostile_uint; 1, 2, 3, 4, 16);
+    case!(v, "BoxedUint option/wrapping forms with arbitrary arguments", hostile_boxed);
+    case!(v, "decoders (DER, RLP, slices, hex, radix) with garbage", hostile_decoders);
+    case!(v, "BoxedUint::from_str_radix_vartime(\"0\") yields a usable value", boxed_zero_numeral);
+    // every case of every other property, panic-only
+    for p in super::PROPS {
+        if p == "C11" {
+            continue;
+        }
+        for case in super::cases(p).unwrap() {
+            v.push(Case::new(format!("{}/{}", p, case.name), case.run));
+        }
+    }
+    v
 }
